@@ -313,6 +313,14 @@ v("C03", "b9-one-byte-guard-dropped", "break", "path.go", "\tif len(segment.Comp
 v("C03", "n2-one-byte-guard-negated", "benign", "path.go", "\tif len(segment.ComparePart) == 1 {\n\t\tif constPosition := strings.IndexByte(s, segment.ComparePart[0]); constPosition != -1 {", "\tif !(len(segment.ComparePart) != 1) {\n\t\tif constPosition := strings.IndexByte(s, segment.ComparePart[0]); constPosition != -1 {", why="same guard written as a negated inequality")
 
 
+v("C09", "b7-q-fast-path-unguarded", "break", "helpers.go", "if bytes.HasPrefix(accept[i:], []byte(\";q=\")) && bytes.IndexByte(accept[qIndex:], ';') == -1 {", "if bytes.HasPrefix(accept[i:], []byte(\";q=\")) {", "q-value-delimited", "`;q=0;level=1` keeps q=1")
+v("C09", "n3-q-rest-named", "benign", "helpers.go", "\t\t\t\tif q, err := fasthttp.ParseUfloat(accept[qIndex:]); err == nil {", "\t\t\t\trest := accept[qIndex:]\n\t\t\t\tif q, err := fasthttp.ParseUfloat(rest); err == nil {", why="the guarded slice gets a name")
+
+v("C11", "b8-items-trimmed", "break", "binder/mapping.go", "\t\t\tdata[key] = append(data[key], values[i])", "\t\t\tdata[key] = append(data[key], strings.TrimSpace(values[i]))", "verbatim", "elements lose leading/trailing blanks")
+v("C11", "b9-value-lowercased", "break", "binder/mapping.go", "\t\tdata[key] = append(data[key], value)\n\t}\n}", "\t\tdata[key] = append(data[key], strings.ToLower(value))\n\t}\n}", "verbatim", "values are case-folded")
+v("C11", "n2-split-range-loop", "benign", "binder/mapping.go", "\t\tfor i := 0; i < len(values); i++ {\n\t\t\tdata[key] = append(data[key], values[i])\n\t\t}", "\t\tfor _, item := range values {\n\t\t\tdata[key] = append(data[key], item)\n\t\t}", why="range loop instead of index loop")
+v("C11", "n3-guard-dropped", "benign", "binder/mapping.go", "if enableSplitting && strings.Contains(value, \",\") && equalFieldType(out, reflect.Slice, key) {", "if enableSplitting && equalFieldType(out, reflect.Slice, key) {", why="Split of a comma-free value returns the value itself")
+
 os.makedirs('/verif/selftest', exist_ok=True)
 for prop, vs in V.items():
     p = f'/verif/selftest/{prop.lower()}.json'
